@@ -46,6 +46,15 @@ def cases(tier, seed):
                         par=R.choice([2, 4] if tier == "quick" else [2, 4, 16]), filt=R.choice([None, None, "posset", "box"]),
                         writer=R.choice(["independent", "toasty"]), via=("cli" if i % 9 == 0 else "api"), profile=R.choice(["natural", "straggler", "slow_dispatcher", "jitter", "slow_feeder", "late_check", "stall", "heavy_tail", "slow_feeder"]),
                         seed=R.randrange(1 << 30)))
+    # `toasty cascade` without --format, on a pyramid under a path with dots in it
+    for i in range(4 if tier == "quick" else 30):
+        fmt, mode = [("npy", "F32"), ("fits", "F32"), ("png", "RGBA"), ("npy", "U8")][i % 4]
+        out.append(dict(t="cascade", fmt=fmt, mode=mode, start=R.choice([1, 2]), pop=R.choice(["perquad", "half", "all"]), par=R.choice([1, 2]), filt=None,
+                        writer="independent", via="cli", profile="natural", seed=R.randrange(1 << 30), guess_format=True))
+    # greyscale png leaves in sparse pyramids (a missing child must stay transparent, not become black data)
+    for i in range(4 if tier == "quick" else 40):
+        out.append(dict(t="cascade", fmt="png", mode="RGB", start=R.choice([2, 3]), pop=R.choice(["one", "perquad", "half", "scattered"]), par=R.choice([2, 4]), filt=None,
+                        writer="independent", via="api", profile="natural", seed=R.randrange(1 << 30), grey=True))
     # one parent tile cannot be stored (disk full) during the parallel cascade: the cascade must say so, or the tree must be right
     for i in range(6 if tier == "quick" else 60):
         fmt, mode = R.choice([("npy", "F32"), ("fits", "F32"), ("png", "RGBA"), ("npy", "U8")])
@@ -79,7 +88,7 @@ def populate(R, start, pop):
     return R.sample(leaves, max(1, len(leaves) // 5))
 
 
-def write_leaves(base, fmt, mode, leaves, rng, R, writer, force_pattern=None):
+def write_leaves(base, fmt, mode, leaves, rng, R, writer, force_pattern=None, grey=False):
     from toasty.pyramid import PyramidIO
 
     pio = PyramidIO(base, default_format=fmt)
@@ -97,6 +106,12 @@ def write_leaves(base, fmt, mode, leaves, rng, R, writer, force_pattern=None):
             tilegen.write_tile_toasty(pio, p, fmt, arr)
         else:
             tilegen.write_tile(base, p, fmt, arr)
+            if grey and fmt == "png":
+                # an 8-bit GREYSCALE png (PIL mode L), as other tools write for monochrome data: colour data like any other
+                from PIL import Image as PI
+
+                fp = os.path.join(base, tilegen.tile_relpath(p, fmt))
+                PI.open(fp).convert("L").save(fp)
     return n_undef
 
 
@@ -111,7 +126,9 @@ def run_cascade(base, fmt, start, par, filt, via, spec, log, captured=None):
     if captured is not None:
         pio.capture = lambda pos, image, kw: captured.__setitem__(tuple(pos), np.array(image.asarray()))
     if via == "cli":
-        fn = lambda: cli.entrypoint(["cascade", "--start", str(start), "-j", str(par), "--format", fmt, base])
+        # with or without --format ("If not specified, this will be guessed")
+        fmt_args = [] if (spec.get("guess_format") and fmt != "jpg") else ["--format", fmt]
+        fn = lambda: cli.entrypoint(["cascade", "--start", str(start), "-j", str(par)] + fmt_args + [base])
     else:
         fn = lambda: cascade_images(pio, start, averaging_merger, parallel=par, tile_filter=filt)
     if par > 1:
@@ -252,10 +269,14 @@ def case_cascade(spec, workdir):
     leaves = populate(R, start, spec["pop"])
     src = os.path.join(workdir, "leaves")
     os.makedirs(src, exist_ok=True)
-    n_undef = write_leaves(src, fmt, mode, leaves, rng, R, spec["writer"], spec.get("force_pattern"))
+    n_undef = write_leaves(src, fmt, mode, leaves, rng, R, spec["writer"], spec.get("force_pattern"), grey=bool(spec.get("grey")))
     stored = tilegen.list_tiles(src, fmt)
     filt = make_filter(spec["filt"], [p for p in leaves if p in stored] or leaves, start)
     a, b = os.path.join(workdir, "serial"), os.path.join(workdir, "par")
+    if spec.get("guess_format"):
+        # the pyramid lives under a path with dots in it (a versioned directory, a relative './' spelling)
+        os.makedirs(os.path.join(workdir, "m31.v2", "run.1"))
+        b = os.path.join(workdir, "m31.v2", "run.1", "..", "run.1", "pyr")
     shutil.copytree(src, a)
     shutil.copytree(src, b)
     probs = []
